@@ -296,6 +296,9 @@ def gen_layer_cfg(rng, D, equivariant_domain=True, allow_stride=False, group="B"
             q = int(rng.integers(0, 3)) if lhs is None else int(rng.integers(1, 3))
             padding = [[q, q]] * D
         rhs = int(rng.integers(1, 3))
+        long_reach = rng.integers(0, 5) == 0  # filter reach ((M-1)//2)*dilation beyond the image extent (small images under a DilResNet)
+        if long_reach:
+            rhs = int(rng.integers(3, 5))
         rhs = rhs if rng.integers(0, 2) else [rhs] * D
         stride = 1
         if allow_stride and rng.integers(0, 3) == 0:
@@ -304,6 +307,8 @@ def gen_layer_cfg(rng, D, equivariant_domain=True, allow_stride=False, group="B"
         torus = [True] * D if tor_kind == "all" else ([False] * D if tor_kind == "none" else [bool(v) for v in rng.integers(0, 2, size=D)])
         hi = 6 if D == 2 else 4
         sp = [int(v) for v in rng.integers(3 if not even else 2, hi + 1, size=D)]
+        if long_reach:
+            sp = [int(v) for v in rng.integers(2, 5, size=D)]
         if rng.integers(0, 3) == 0:
             sp = [sp[0]] * D
         pad_t = tuple(tuple(p) for p in padding) if isinstance(padding, list) else padding
